@@ -634,10 +634,14 @@ class Network(Cached):
         sp_A = sp.coo_matrix(
             (np.ones_like(edges.T[0]), tuple(edges.T)), shape=(N, N))
 
-        #  Extract node weights
+        #  Extract node weights (the GML format strips the underscores from
+        #  attribute names)
         if "node_weight_nsi" in graph.vs.attribute_names():
             node_weights = np.array(
                 graph.vs.get_attribute_values("node_weight_nsi"))
+        elif "nodeweightnsi" in graph.vs.attribute_names():
+            node_weights = np.array(
+                graph.vs.get_attribute_values("nodeweightnsi"))
         else:
             node_weights = None
 
